@@ -374,12 +374,15 @@ func Mutations(e *Enc, r *hx.Rng, max int) []Mutation {
 		}
 	}
 	sortInts(cl)
-	for _, c := range pick(cl, r, 5) {
+	for _, c := range pick(cl, r, 4) {
 		add("truncated", clone(b[:c]))
 	}
 	// trailing bytes
-	add("trailing_zero_byte", append(clone(b), 0))
-	add("trailing_bytes", append(clone(b), r.Bytes(1+r.Intn(4))...))
+	if r.Bool() {
+		add("trailing_zero_byte", append(clone(b), 0))
+	} else {
+		add("trailing_bytes", append(clone(b), r.Bytes(1+r.Intn(4))...))
+	}
 	// offsets
 	for _, p := range pick(e.M.Offsets, r, 4) {
 		v := binary.LittleEndian.Uint32(b[p:])
@@ -463,4 +466,102 @@ func pick(a []int, r *hx.Rng, n int) []int {
 	}
 	sortInts(out)
 	return out
+}
+
+// EmptyVarElem: does b, read permissively along the schema, contain a list of variable-size elements one of
+// whose elements is given zero bytes although every value of the element type needs at least one byte, while
+// everything else is structurally sound?  (Evidence for the known ztyp leniency of codec.DecodingReader.List.)
+func EmptyVarElem(t *Ty, b []byte) bool {
+	found := false
+	ok := emptyWalk(t, b, &found)
+	return ok && found
+}
+
+func emptyWalk(t *Ty, b []byte, found *bool) bool {
+	switch t.Kind {
+	case KContainer:
+		pos := 0
+		type vf struct {
+			t   *Ty
+			off int
+		}
+		var vars []vf
+		for _, f := range t.Fields {
+			if s, fixed := f.T.FixedSize(); fixed {
+				if pos+int(s) > len(b) {
+					return false
+				}
+				if !emptyWalk(f.T, b[pos:pos+int(s)], found) {
+					return false
+				}
+				pos += int(s)
+			} else {
+				if pos+4 > len(b) {
+					return false
+				}
+				vars = append(vars, vf{f.T, int(binary.LittleEndian.Uint32(b[pos:]))})
+				pos += 4
+			}
+		}
+		for i, v := range vars {
+			end := len(b)
+			if i+1 < len(vars) {
+				end = vars[i+1].off
+			}
+			if (i == 0 && v.off != pos) || v.off > end || end > len(b) {
+				return false
+			}
+			if !emptyWalk(v.t, b[v.off:end], found) {
+				return false
+			}
+		}
+		return true
+	case KList, KVector:
+		if s, fixed := t.Elem.FixedSize(); fixed {
+			if s == 0 || len(b)%int(s) != 0 {
+				return false
+			}
+			if t.Elem.Kind == KContainer || t.Elem.Kind == KVector {
+				for i := 0; i+int(s) <= len(b); i += int(s) {
+					if !emptyWalk(t.Elem, b[i:i+int(s)], found) {
+						return false
+					}
+				}
+			}
+			return true
+		}
+		if len(b) == 0 {
+			return t.Kind == KList
+		}
+		if len(b) < 4 {
+			return false
+		}
+		o0 := int(binary.LittleEndian.Uint32(b))
+		if o0%4 != 0 || o0 == 0 || o0 > len(b) {
+			return false
+		}
+		n := o0 / 4
+		offs := make([]int, n)
+		for i := 0; i < n; i++ {
+			offs[i] = int(binary.LittleEndian.Uint32(b[4*i:]))
+		}
+		for i := 0; i < n; i++ {
+			end := len(b)
+			if i+1 < n {
+				end = offs[i+1]
+			}
+			if offs[i] > end || end > len(b) {
+				return false
+			}
+			if end == offs[i] && t.Elem.MinSize() > 0 {
+				*found = true
+				continue
+			}
+			if !emptyWalk(t.Elem, b[offs[i]:end], found) {
+				return false
+			}
+		}
+		return true
+	}
+	return true
 }
